@@ -185,6 +185,8 @@ ApplyPacket(to, pid, s, t) ==
          ELSE IF s \in {"Joined", "Accepted", "Proposing"} /\ to \in Participants(t)
            THEN [ok |-> TRUE, st |-> "Executing", setup |-> TRUE, store |-> FALSE]
            ELSE [ok |-> FALSE, st |-> s, setup |-> FALSE, store |-> FALSE]
+    \* reject / abort packets are not part of this model
+    [] OTHER -> [ok |-> FALSE, st |-> s, setup |-> FALSE, store |-> FALSE]
 
 -----------------------------------------------------------------------------
 (* kyber bundles and the black box                                           *)
